@@ -398,15 +398,15 @@ func (s *Slice) GetSlaveConn(slavesInfo *DBInfo, localSlaveReadPriority int) (Po
 		return s.getConnFromBalancer(slavesInfo, slavesInfo.GlobalBalancer)
 
 	case LocalSlaveReadPrefer:
-		// 优先尝试本地 `LocalBalancer`
+		// 优先尝试本地 `LocalBalancer`：某个本地节点取连接失败时，先尝试其余可用的本地节点
 		if slavesInfo.LocalBalancer != nil {
-			if conn, err := s.getConnFromBalancer(slavesInfo, slavesInfo.LocalBalancer); err == nil {
+			if conn, err := s.getConnFromBalancerTryAll(slavesInfo, slavesInfo.LocalBalancer); err == nil {
 				return conn, nil
 			}
 		}
-		// 降级尝试 `RemoteBalancer`
+		// 降级尝试 `RemoteBalancer`（仅当没有任何本地节点可以提供连接时）
 		if slavesInfo.RemoteBalancer != nil {
-			if conn, err := s.getConnFromBalancer(slavesInfo, slavesInfo.RemoteBalancer); err == nil {
+			if conn, err := s.getConnFromBalancerTryAll(slavesInfo, slavesInfo.RemoteBalancer); err == nil {
 				return conn, nil
 			}
 		}
@@ -836,6 +836,30 @@ func (s *Slice) getConnFromBalancer(slavesInfo *DBInfo, bal *balancer) (PooledCo
 		return nil, err
 	}
 	return s.getConnWithFuse(node)
+}
+
+// getConnFromBalancerTryAll 与 getConnFromBalancer 相同，但某个节点的连接池取连接失败时不会立即放弃，
+// 而是继续尝试该 balancer 中其余处于 UP 状态的节点（每个节点最多尝试一次）。
+// 每次 getNodeFromBalancer 都会把游标移动到下一个 UP 节点，因此 len(roundRobinQ) 次调用足以遍历队列中所有 UP 节点。
+func (s *Slice) getConnFromBalancerTryAll(slavesInfo *DBInfo, bal *balancer) (PooledConnect, error) {
+	lastErr := fmt.Errorf("no healthy connection available from selected balancer")
+	tried := make(map[*NodeInfo]struct{})
+	for i := 0; i < len(bal.roundRobinQ); i++ {
+		node, err := s.getNodeFromBalancer(slavesInfo, bal)
+		if err != nil {
+			return nil, err
+		}
+		if _, ok := tried[node]; ok {
+			continue
+		}
+		tried[node] = struct{}{}
+		pc, err := s.getConnWithFuse(node)
+		if err == nil {
+			return pc, nil
+		}
+		lastErr = err
+	}
+	return nil, lastErr
 }
 
 func (s *Slice) getNodeFromBalancer(slavesInfo *DBInfo, bal *balancer) (*NodeInfo, error) {
